@@ -19,6 +19,14 @@ Theorem C19_render_total :
 Proof. exact hrender_no_panic. Qed.
 Print Assumptions C19_render_total.
 
+(* "never panics": the whole HTML5 serialisation of any node of any tree, with any CDATA-section list and with or without
+   indentation, never reaches the unwrap of the Prefix branch (nor any other): every Prefix event the generator produces is
+   tagged with the element that declares it *)
+Theorem C19_never_panics :
+  forall nm hn cdata indent z, html5_serialize nm hn cdata indent z <> HPanic.
+Proof. exact html5_serialize_no_panic. Qed.
+Print Assumptions C19_never_panics.
+
 (* never self-closed: the start tag is always closed with '>' *)
 Theorem C19_never_self_closed :
   forall nm hn cdata st z, hrender nm hn cdata st z OStartTagClose = HOk (st, tok false [62]).
